@@ -9,10 +9,13 @@ import (
 	"os"
 	"os/exec"
 	"path/filepath"
+	"runtime"
 	"sort"
 	"strings"
 	"sync"
 	"sync/atomic"
+	"syscall"
+	"time"
 	"unicode/utf8"
 
 	spg "go.1password.io/spg"
@@ -502,7 +505,7 @@ func checkCharPassword(sem oracle.CharSem, p *spg.Password) (class, msg string) 
 		return "token-count", fmt.Sprintf("%d tokens for Length %d", len(ts), sem.Length)
 	}
 	chars := make([]string, len(ts))
-	cat := ""
+	var catB strings.Builder
 	for i, t := range ts {
 		if t.Type() != spg.AtomType {
 			return "token-type", fmt.Sprintf("token %d has type %d, want atom", i, t.Type())
@@ -511,8 +514,9 @@ func checkCharPassword(sem oracle.CharSem, p *spg.Password) (class, msg string) 
 			return "token-not-one-char", fmt.Sprintf("token %d is %q", i, t.Value())
 		}
 		chars[i] = t.Value()
-		cat += t.Value()
+		catB.WriteString(t.Value())
 	}
+	cat := catB.String()
 	if p.String() != cat {
 		return "string-not-concatenation", fmt.Sprintf("String()=%q tokens=%q", p.String(), cat)
 	}
@@ -774,4 +778,90 @@ func envRestore(names []string) func() {
 			}
 		}
 	}
+}
+
+// brokenStderr makes standard error unwritable until the returned function is called: os.Stderr is a closed file
+// and descriptor 2 is /dev/full. A library whose results depend on whether a notice could be delivered shows it.
+func brokenStderr() func() {
+	oldVar := os.Stderr
+	r, w, err := os.Pipe()
+	if err != nil {
+		return func() {}
+	}
+	r.Close()
+	w.Close()
+	os.Stderr = w // a closed file: every write fails
+	saved, err1 := syscall.Dup(2)
+	full, err2 := os.OpenFile("/dev/full", os.O_WRONLY, 0)
+	if err1 == nil && err2 == nil {
+		syscall.Dup2(int(full.Fd()), 2)
+	}
+	return func() {
+		os.Stderr = oldVar
+		if err1 == nil {
+			syscall.Dup2(saved, 2)
+			syscall.Close(saved)
+		}
+		if err2 == nil {
+			full.Close()
+		}
+	}
+}
+
+// runBounded runs f on a goroutine of its own and waits for it. If f has not returned after the grace period,
+// the verdict is not taken from the clock: all goroutine stacks are sampled twice, two seconds apart, and only
+// if f's goroutine sits in the same blocked state (waiting for a lock, a channel, a condition) inside the
+// library both times is it reported as blocked. Anything else that is merely slow is "unfinished" (inconclusive).
+func runBounded(grace time.Duration, f func()) (finished bool, blocked string) {
+	done := make(chan struct{})
+	go func() {
+		defer close(done)
+		f()
+	}()
+	select {
+	case <-done:
+		return true, ""
+	case <-time.After(grace):
+	}
+	sample := func() (state, frames string) {
+		buf := make([]byte, 1<<20)
+		buf = buf[:runtime.Stack(buf, true)]
+		for _, g := range strings.Split(string(buf), "\n\n") {
+			if !strings.Contains(g, "runBounded.func1") || !strings.Contains(g, "go.1password.io/spg") {
+				continue
+			}
+			head := g
+			if i := strings.IndexByte(g, '\n'); i >= 0 {
+				head = g[:i]
+			}
+			st := ""
+			if a, b := strings.IndexByte(head, '['), strings.IndexByte(head, ']'); a >= 0 && b > a {
+				st = head[a+1 : b]
+				if j := strings.IndexByte(st, ','); j >= 0 {
+					st = st[:j]
+				}
+			}
+			var fr []string
+			for _, line := range strings.Split(g, "\n")[1:] {
+				if !strings.HasPrefix(line, "\t") {
+					fr = append(fr, strings.SplitN(line, "(", 2)[0])
+				}
+			}
+			return st, strings.Join(fr, " < ")
+		}
+		return "", ""
+	}
+	s1, f1 := sample()
+	select {
+	case <-done:
+		return true, ""
+	case <-time.After(2 * time.Second):
+	}
+	s2, f2 := sample()
+	waiting := map[string]bool{"sync.Mutex.Lock": true, "sync.RWMutex.Lock": true, "sync.RWMutex.RLock": true, "semacquire": true, "chan receive": true,
+		"chan send": true, "select": true, "sync.Cond.Wait": true, "sync.WaitGroup.Wait": true, "select (no cases)": true, "chan receive (nil chan)": true}
+	if s1 != "" && s1 == s2 && f1 == f2 && waiting[s1] {
+		return false, fmt.Sprintf("goroutine state %q at %s", s1, head(f1, 400))
+	}
+	return false, ""
 }
